@@ -41,6 +41,8 @@ def make_cases(rng, quick):
         cases.append({"kind": "truncated", "loc": loc, "scale": scale, "low": None if mode == "high" else loc + a * scale,
                       "high": None if mode == "low" else loc + min(b, 12) * scale, "suffix": sfx, "seed": rng.randint(0, 10**6)})
     cases.append({"kind": "gaussian", "loc": 0.25, "scale": 0.5, "low": None, "high": None, "suffix": "_s", "seed": 1, "sky": True})
+    cases.append({"kind": "gaussian", "loc": 60.0, "scale": 1.0, "low": None, "high": None, "suffix": "", "seed": 2, "sky": True})
+    cases.append({"kind": "gaussian", "loc": -3.0, "scale": 0.046875, "low": None, "high": None, "suffix": "_b", "seed": 3, "sky": True})
     return cases
 
 
